@@ -566,3 +566,84 @@ Proof.
   apply (client_coroutine_req (copy_machine (rx_framer size dec) bufsize) (fx_spec size dec) (fx_R size dec)
            (fx_consumer_ok size dec bufsize Hs Hb) (cinit (rx_framer size dec)) (fx_R_init size dec bufsize Hs Hb)).
 Qed.
+
+(* ================================================================== sorted arrivals *)
+Section Sorted.
+  Context {P C : Type}.
+  Variable M : machine P C.
+
+  Lemma nondecr_rest : forall (ch : bytes) T o n,
+      nondecr (SData ch T :: o) ->
+      nondecr (if Nat.ltb n (length ch) then SData (skipn n ch) T :: o else o).
+  Proof. intros ch T o n H. destruct (Nat.ltb n (length ch)); [exact H|apply H]. Qed.
+
+  Lemma rq_loop_nondecr : forall fuel dl c o now c' o' now' (a : @nact P),
+      nondecr o -> rq_loop M fuel dl c o now = (c', o', now', a) -> nondecr o'.
+  Proof.
+    induction fuel; intros dl c o now c' o' now' a Hs H; cbn [rq_loop] in H; [inversion H; subst; exact Hs|].
+    destruct o as [|it o1]; [inversion H; subst; exact I|].
+    destruct (match dl with Some d0 => Nat.ltb now (sitem_at it) && Nat.leb d0 (sitem_at it) | None => false end);
+      [inversion H; subst; exact Hs|].
+    destruct it as [ch at_|at_|kk at_].
+    - destruct ch as [|b ch]; [inversion H; subst; apply Hs|].
+      destruct (mtake M c (b :: ch)) as [[[[c1 r1] n] room]|]; [|inversion H; subst; exact Hs].
+      pose proof (nondecr_rest (b :: ch) at_ o1 n Hs) as Hs2. cbn [sitem_at] in H.
+      destruct r1; try (inversion H; subst; exact Hs2).
+      eapply IHfuel; eauto.
+    - inversion H; subst. apply Hs.
+    - destruct kk; inversion H; subst; apply Hs.
+  Qed.
+
+  Lemma rq_next_nondecr : forall t c o now c' o' now' (a : @nact P),
+      nondecr o -> rq_next M t c o now = (c', o', now', a) -> nondecr o'.
+  Proof.
+    unfold rq_next. intros t c o now c' o' now' a Hs H.
+    destruct (mdrain M c) as [c1 r1]. destruct r1; try (inversion H; subst; exact Hs).
+    eapply rq_loop_nondecr; eauto.
+  Qed.
+
+  Lemma head_bound_all : forall dl (o : speer),
+      nondecr o -> match o with it :: _ => dl <= sitem_at it | [] => False end ->
+      o <> [] /\ Forall (fun it => dl <= sitem_at it) o.
+  Proof.
+    intros dl [|it o] Hs Hh; [contradiction|]. split; [discriminate|].
+    constructor; [exact Hh|]. destruct Hs as [Hall _].
+    eapply Forall_impl; [|exact Hall]. cbv beta. intros a Ha. lia.
+  Qed.
+End Sorted.
+
+Section SortedTimeout.
+  Context {P C : Type}.
+  Variable M : machine P C.
+  Variable spec : bytes -> list (nres P).
+
+  Lemma rq_next_timeout_sorted_rel : forall (G : bytes -> Prop) (R : C -> bytes -> nat -> Prop) (D : C -> bytes -> Prop),
+      consumer_ok_rel M spec G R D ->
+      forall t c o now d k c' o' now',
+      G (d ++ sstream_of o) -> nondecr o ->
+      R c d k -> rq_next M t c o now = (c', o', now', NThrow XTimeout) ->
+      exists tm x, t = Some tm /\ now' = now + tm /\ x ++ sstream_of o' = sstream_of o /\
+                   D c' (d ++ x) /\ k = length (spec (d ++ x)) /\
+                   o' <> [] /\ Forall (fun it => now + tm <= sitem_at it) o'.
+  Proof.
+    intros G R D OK t c o now d k c' o' now' HG Hs HR H.
+    destruct (rq_next_timeout_rel M spec G R D OK t c o now d k c' o' now' HG HR H)
+      as (tm & x & H1 & H2 & H3 & H4 & H5 & H6).
+    exists tm, x. repeat split; auto; apply (head_bound_all (now + tm) o' (rq_next_nondecr M _ _ _ _ _ _ _ _ Hs H) H6).
+  Qed.
+
+  Lemma rq_next_timeout_sorted : forall (R : C -> bytes -> nat -> Prop),
+      consumer_ok M spec R ->
+      forall t c o now d k c' o' now',
+      nondecr o ->
+      R c d k -> rq_next M t c o now = (c', o', now', NThrow XTimeout) ->
+      exists tm x, t = Some tm /\ now' = now + tm /\ x ++ sstream_of o' = sstream_of o /\
+                   R c' (d ++ x) k /\ k = length (spec (d ++ x)) /\
+                   o' <> [] /\ Forall (fun it => now + tm <= sitem_at it) o'.
+  Proof.
+    intros R OK t c o now d k c' o' now' Hs HR H.
+    destruct (rq_next_timeout_sorted_rel _ R _ (consumer_ok_is_rel M spec R OK) t c o now d k c' o' now' I Hs HR H)
+      as (tm & x & H1 & H2 & H3 & H4 & H5 & H6 & H7).
+    exists tm, x. repeat split; auto. rewrite H5. exact H4.
+  Qed.
+End SortedTimeout.
